@@ -27,6 +27,7 @@ CONSTANTS
   CreateFaults = TRUE
   ReadFaults = FALSE
   TTLRollback = FALSE
+  UpdFields = {"inactive", "expired"}
   LegStatus = {"active"}
   OnlyList = {}
   Emit = FALSE
